@@ -28,6 +28,7 @@ type c04Params struct {
 	N        int
 	Thr      int // passive threshold; 0 = passive off
 	Active   bool
+	Held     bool // the held-request alphabet (see c04Events)
 }
 
 const c04Window = 10 * time.Second
@@ -44,6 +45,7 @@ type c04Inst struct {
 	events []string
 	mon    []*c04Mon
 	out    string
+	held   *held
 }
 
 func c04Events(p c04Params) []string {
@@ -63,6 +65,12 @@ func c04Events(p c04Params) []string {
 	// the operator takes b0 out and registers it again (same name and address): a new backend,
 	// which has no failed responses on record and is not ejected
 	ev = append(ev, "readd:b0")
+	if p.Held {
+		// a request that stays in flight at its backend while other events happen (the backend is
+		// ejected, its window lapses ...) and ends later with a 200: separate, smaller searches
+		// (c04HeldSpec) in which ejections are injected, so that the windows are known exactly
+		return []string{"req:10.0.0.1", "req:10.0.0.2", "start-held", "finish-held", "eject:b0", "eject:b1", "clock+4s(<window)", "clock+11s(>window)"}
+	}
 	if p.Active {
 		ev = append(ev, "tick")
 	}
@@ -166,7 +174,7 @@ func (in *c04Inst) tick() (failed, ok map[int]bool) {
 	for i, st := range in.k.stubs {
 		before[i] = st.probes
 	}
-	if tk := in.s.TickerByPeriod(5 * time.Second); tk != nil {
+	if tk := in.s.TickerByPeriod(kitProbePeriod); tk != nil {
 		tk.Fire()
 	}
 	in.s.Settle()
@@ -200,7 +208,56 @@ func (in *c04Inst) Step(ev int) *vh.HViol {
 			st.mode, st.probeMode = "ok", "ok"
 		}
 		in.out = st.mode
+	case e == "start-held":
+		if in.held != nil {
+			in.out = "already-held"
+			break
+		}
+		now := in.s.Clock()
+		before := in.k.hitsVector()
+		h := in.k.startHeld("10.0.0.3")
+		for i, n := range in.k.hitsVector() {
+			if n > before[i] {
+				if m := in.mon[i]; m.until >= 0 && now <= m.until {
+					return &vh.HViol{Key: "C04/traffic-inside-window/" + in.p.Strategy, What: fmt.Sprintf("%s: b%d received a client request at t=%v inside its unhealthy window (until t=%v)", in.cfg(), i, now, m.until)}
+				}
+			}
+		}
+		if h.done || h.at == nil {
+			in.out = fmt.Sprintf("not-held:%d", h.res.Status)
+		} else {
+			in.held = h
+			in.out = "held-at:" + h.at.name
+		}
+	case e == "finish-held":
+		if in.held == nil {
+			in.out = "nothing-held"
+			break
+		}
+		h := in.held
+		in.held = nil
+		in.k.release(h.at)
+		in.out = fmt.Sprintf("held-finished:%d", h.res.Status)
+		for i, st := range in.k.stubs {
+			if st == h.at {
+				if h.res.Status >= 500 {
+					in.mon[i].consec++
+					in.mon[i].cum++
+				} else {
+					in.mon[i].consec = 0
+				}
+			}
+		}
+	case strings.HasPrefix(e, "eject:"):
+		i := int(e[len(e)-1] - '0')
+		in.k.lb.MarkBackendUnhealthy(in.k.backendByName(fmt.Sprintf("b%d", i)), c04Window)
+		in.mon[i].until, in.mon[i].consec, in.mon[i].cum = in.s.Clock()+c04Window, 0, 0
+		in.out = "ejected"
 	case e == "readd:b0":
+		if in.held != nil && in.held.at != nil && in.held.at.name == "b0" {
+			in.out = "b0-busy"
+			break
+		}
 		in.k.lb.RemoveBackend("b0")
 		if err := in.k.lb.AddBackend(config.BackendConfig{Name: "b0", Address: "http://b0.test:80"}); err != nil {
 			vh.ToolError("re-adding b0: %v", err)
@@ -228,6 +285,10 @@ func (in *c04Inst) Step(ev int) *vh.HViol {
 func (in *c04Inst) Probe() *vh.HViol {
 	for _, st := range in.k.stubs {
 		st.mode, st.probeMode = "ok", "ok"
+	}
+	if in.held != nil {
+		in.k.release(in.held.at)
+		in.held = nil
 	}
 	in.s.AdvanceQuiet(11 * time.Second)
 	if in.p.Active {
@@ -291,6 +352,9 @@ func (in *c04Inst) Fingerprint() string {
 			fmt.Fprintf(&b, "|m%v", bm.IsHealthy)
 		}
 	}
+	if in.held != nil {
+		b.WriteString("|held:" + in.held.at.name)
+	}
 	b.WriteString(in.k.novel())
 	return b.String()
 }
@@ -298,7 +362,7 @@ func (in *c04Inst) Fingerprint() string {
 func c04Spec(p c04Params, depth int) vh.HSpec {
 	ev := c04Events(p)
 	return vh.HSpec{
-		Name: fmt.Sprintf("health-%s-n%d-thr%d-active%v", p.Strategy, p.N, p.Thr, p.Active), KeyPrefix: "C04", Events: ev, Depth: depth, Params: p,
+		Name: fmt.Sprintf("health-%s-n%d-thr%d-active%v%s", p.Strategy, p.N, p.Thr, p.Active, map[bool]string{true: "-held-requests"}[p.Held]), KeyPrefix: "C04", Events: ev, Depth: depth, Params: p,
 		New: func(s *vrt.Sched) vh.HInstance {
 			k := newKit(s, kitOpts{Strategy: p.Strategy, N: p.N, Weights: []int{2, 1, 1}[:p.N], PassiveThr: p.Thr, Window: 10, Active: p.Active})
 			in := &c04Inst{s: s, k: k, p: p, events: ev}
@@ -346,20 +410,30 @@ func TestVerifC04H(t *testing.T) {
 				}
 				n := 2
 				if vh.MyShard(i) {
-					vh.RunH(r, "TestVerifC04H", c04Spec(c04Params{strat, n, thr, active}, depth))
+					vh.RunH(r, "TestVerifC04H", c04Spec(c04Params{Strategy: strat, N: n, Thr: thr, Active: active}, depth))
 				}
 				i++
 			}
 		}
 	}
+	// requests held in flight across ejections and lapsing windows (injected ejections, passive
+	// and active checks off or on): see c04Events
+	for _, strat := range allStrategies {
+		for _, cfg := range [][2]int{{0, 1}, {2, 0}} {
+			if vh.MyShard(i) {
+				vh.RunH(r, "TestVerifC04H", c04Spec(c04Params{Strategy: strat, N: 2, Thr: cfg[0], Active: cfg[1] == 1, Held: true}, depth-1))
+			}
+			i++
+		}
+	}
 	if vres.Thorough() {
 		for _, strat := range allStrategies {
 			if vh.MyShard(i) {
-				vh.RunH(r, "TestVerifC04H", c04Spec(c04Params{strat, 3, 2, true}, depth-2))
+				vh.RunH(r, "TestVerifC04H", c04Spec(c04Params{Strategy: strat, N: 3, Thr: 2, Active: true}, depth-2))
 			}
 			i++
 			if vh.MyShard(i) {
-				vh.RunH(r, "TestVerifC04H", c04Spec(c04Params{strat, 3, 4, false}, depth-1))
+				vh.RunH(r, "TestVerifC04H", c04Spec(c04Params{Strategy: strat, N: 3, Thr: 4, Active: false}, depth-1))
 			}
 			i++
 		}
